@@ -607,7 +607,7 @@ Definition ok_expr (e : expr) : bool :=
 Definition ok_pseudo (p : pseudo) : bool :=
   match p with
   | PsId _ n => ident n
-  | PsFn _ n w e => ident n && negb (eqs n (s "not")) && ok_ws w && ok_expr e
+  | PsFn _ n w e => ident n && negb (eqs (lower n) (s "not")) && ok_ws w && ok_expr e
   end.
 (* does the machine treat the pseudo as a pseudo-element (after which only a combinator may follow)? *)
 Definition pseudo_is_element (p : pseudo) : bool :=
